@@ -15,6 +15,8 @@ mod polyops;
 mod c01;
 mod c02;
 mod c11;
+mod c14;
+mod c13;
 mod c04;
 mod c03;
 mod c09;
@@ -36,6 +38,8 @@ fn table(prop: &str) -> Option<(GenFn, RunFn)> {
         "C01" => Some((c01::generate, c01::run)),
         "C02" => Some((c02::generate, c02::run)),
         "C11" => Some((c11::generate, c11::run)),
+        "C14" => Some((c14::generate, c14::run)),
+        "C13" => Some((c13::generate, c13::run)),
         "C04" => Some((c04::generate, c04::run)),
         "C03" => Some((c03::generate, c03::run)),
         "C09" => Some((c09::generate, c09::run)),
